@@ -9,6 +9,7 @@ C05.5  polarity of the BDD path walk (left extends pos, right extends neg, middl
 """
 import re
 from facts import walk, WASM
+from facts import children as _children
 from mirflow import FnFlow, Origins, op_place
 
 LEVEL = "other"
@@ -343,6 +344,14 @@ def run(cx, rep):
         hits = fragment_store_rule(cx.canary, None, None, lambda f: True, collect=True)
         rep.ob("C05.8", "control/canary-conditional-store", any("fragment_conditional" in h for h in hits) and not any("fragment_unconditional" in h for h in hits),
                "positive control: the canary crate's conditional store (entry().and_modify) must be reported and its unconditional twin must not (reported: %s)" % hits, "canary/rs/src/lib.rs")
+    # ---------------------------------------------------------------- C05.9
+    rep.rule("C05.9", "`inhabited` is answered only where no negative is left or where the remaining negatives answered it")
+    n69 = every_negative_rule(F, rep, "C05.9", engine)
+    rep.floor("C05.9", "returns of the base answer outside the base case", n69, 2)
+    if cx.canary is not None:
+        hits = every_negative_rule(cx.canary, None, None, lambda f: True, collect=True)
+        rep.ob("C05.9", "control/canary-first-negative-only", any("peel_first_only" in h for h in hits) and not any("peel_all" in h for h in hits),
+               "positive control: the canary crate's procedure that answers next to the first negative must be reported and its complete twin must not (reported: %s)" % hits, "canary/rs/src/lib.rs")
     # ---------------------------------------------------------------- C05.7
     rep.rule("C05.7", "twin procedures of the subtyping engine agree (exact / open, number / string, list / set, map / mapping)")
     import twins
@@ -555,3 +564,175 @@ def check_region(rep, F, f, what, fam, body, line):
     else:
         rep.ob("C05.2", key, True, sample={"fn": f.id.rsplit("::", 1)[-1], "region": what, "family": fam, "mentions": len(ms)})
     return 1
+
+
+# ---------------------------------------------------------------------------
+# C05.9
+
+def _const_of(e):
+    """the constant an expression evaluates to, through Ok(..) / Some(..) / blocks: ('variant', path) / ('bool', v)"""
+    while True:
+        if e is None:
+            return None
+        k = e["k"]
+        if k == "BlockExpr":
+            b = e["block"]
+            if b["stmts"] or b.get("expr") is None:
+                return None
+            e = b["expr"]
+            continue
+        if k == "Call" and (e.get("callee") or "").rsplit("::", 1)[-1] in ("Ok", "Some") and e.get("args"):
+            e = e["args"][0]
+            continue
+        if k in ("DropTemps", "Cast"):
+            e = e.get("e")
+            continue
+        if k == "Lit" and e.get("lit") == "bool":
+            return ("bool", str(e.get("v")).lower())
+        if k == "Path" and e.get("res") in ("def", "ctor") and e.get("def"):
+            return ("variant", e["def"])
+        if k == "Struct" and not e.get("fields") and e.get("def"):
+            return ("variant", e["def"])
+        return None
+
+
+def every_negative_rule(F, rep, rid, select, collect=False):
+    """The emptiness of  pos \\\\ (n1 | n2 | ..)  is decided by peeling one negative at a time: each call looks at the
+    first negative and recurses on the rest.  `Inhabited` may therefore be answered only where no negative is left, or
+    where the recursive call on the REMAINING negatives answered it: a value that escapes n1 (a key / an element outside
+    n1's domain) may still lie in n2.  A direct `inhabited` return next to the first negative makes S <= T1 | T2 depend on
+    the order of T1 and T2.  Decided per recursive function of the engine that has a base case on its negatives
+    parameter (`match neg { None => X }`, `if negs.is_empty() { return X }`): every other return of the constant X
+    is control-dependent on the result of a call back into the function's recursion."""
+    hits = []
+    n = 0
+    sccs = [c for c in F.sccs(list(F.fns)) if len(c) > 1 or c[0] in F.edges.get(c[0], ())]
+    scc_of = {g: i for i, c in enumerate(sccs) for g in c}
+    for g in sorted(F.hir):
+        f = F.fns.get(g)
+        if f is None or g not in scc_of or not select(f) or f.kind == "Closure":
+            continue
+        tree = F.hir[g]
+        params = {p.get("lid"): p for p in tree.get("params", []) if isinstance(p, dict) and p.get("k") == "P.Binding"}
+        neg_lids = {lid for lid, p in params.items() if re.match(r"^&(mut )?(std::option::Option<std::rc::Rc<[\w:]+>>|\[std::rc::Rc<[\w:]+>\])$", (p.get("ty") or "").strip())}
+        if not neg_lids:
+            continue
+        parents = {}
+        for x in walk(tree["body"]):
+            for c in _children(x):
+                parents[id(c)] = x
+
+        def root_lid(e):
+            while e["k"] in ("AddrOf", "Unary", "DropTemps", "Cast"):
+                e = e.get("e")
+            return e.get("lid") if e["k"] == "Path" and e.get("res") == "local" else None
+        base = None
+        base_nodes = set()
+        for x in walk(tree["body"]):
+            if x["k"] == "Match" and root_lid(x["scrut"]) in neg_lids:
+                for a in x["arms"]:
+                    if (a["pat"].get("def") or "").endswith("::None") or (a["pat"]["k"] == "P.Expr" and "None" in str(a["pat"])):
+                        c = _const_of(a["body"])
+                        rets = [r for r in walk(a["body"]) if r["k"] == "Ret"]
+                        if c is None and rets:
+                            c = _const_of(rets[0].get("e"))
+                        if c is not None:
+                            base = c
+                            base_nodes |= {id(y) for y in walk(a["body"])}
+            if x["k"] == "If" and x["cond"]["k"] == "MethodCall" and x["cond"]["method"] == "is_empty" and root_lid(x["cond"]["recv"]) in neg_lids:
+                rets = [r for r in walk(x["then"]) if r["k"] == "Ret"]
+                c = _const_of(rets[0].get("e")) if rets else _const_of(x["then"])
+                if c is not None:
+                    base = c
+                    base_nodes |= {id(y) for y in walk(x["then"])}
+            # `let Some(n) = neg else { return X }`, `let Some((first, rest)) = negs.split_first() else { return X }`
+            if x["k"] == "LetStmt" and x.get("els") is not None and x.get("init") is not None:
+                i = x["init"]
+                while i["k"] == "MethodCall" and i["method"] in ("split_first", "first", "split_last", "last", "as_ref", "as_deref", "get") :
+                    i = i["recv"]
+                if root_lid(i) in neg_lids:
+                    rets = [r for r in walk(x["els"]) if r["k"] == "Ret"]
+                    c = _const_of(rets[0].get("e")) if rets else None
+                    if c is not None:
+                        base = c
+                        base_nodes |= {id(y) for y in walk(x["els"])}
+            # `match negs.split_first() { None => X, .. }`
+            if x["k"] == "Match" and x["scrut"]["k"] == "MethodCall" and x["scrut"]["method"] in ("split_first", "first", "split_last", "last") and root_lid(x["scrut"]["recv"]) in neg_lids:
+                for a in x["arms"]:
+                    if (a["pat"].get("def") or "").endswith("::None"):
+                        c = _const_of(a["body"])
+                        rets = [r for r in walk(a["body"]) if r["k"] == "Ret"]
+                        if c is None and rets:
+                            c = _const_of(rets[0].get("e"))
+                        if c is not None:
+                            base = c
+                            base_nodes |= {id(y) for y in walk(a["body"])}
+        if base is None:
+            continue
+
+        # an expression for the REMAINING negatives: same type as the negatives parameter, but not the parameter itself
+        # (`neg.next`, `&negs[1..]`, a local bound to one of those)
+        def norm_ty(t):
+            return re.sub(r"^(&(mut )?)+", "", (t or "").strip())
+        neg_tys = {norm_ty(params[l].get("ty")) for l in neg_lids}
+
+        def is_rec_call(x):
+            """a call back into the recursion that is handed the remaining negatives"""
+            if x["k"] not in ("Call", "MethodCall"):
+                return False
+            cal = x.get("callee") if x["k"] == "Call" else (x.get("resolved") or x.get("callee"))
+            tg = F._callee_gid(f.crate, cal) if cal else None
+            if tg is None or scc_of.get(tg) != scc_of[g]:
+                return False
+            args = ([x["recv"]] if x["k"] == "MethodCall" else []) + list(x.get("args") or [])
+            for a in args:
+                for y in walk(a):
+                    if norm_ty(y.get("ty")) in neg_tys and not (y["k"] == "Path" and y.get("lid") in neg_lids):
+                        return True
+            return False
+        lets = {}
+        for x in walk(tree["body"]):
+            if x["k"] == "LetStmt" and x.get("init") is not None and x["pat"].get("k") == "P.Binding":
+                lets[x["pat"]["lid"]] = x["init"]
+
+        def depends_on_recursion(node):
+            cur = node
+            while id(cur) in parents:
+                par = parents[id(cur)]
+                test = None
+                if par["k"] == "If" and (par.get("then") is cur or par.get("else") is cur):
+                    test = par["cond"]
+                elif par["k"] == "Arm" or (par["k"] == "Match" and cur is not par.get("scrut")):
+                    m = par if par["k"] == "Match" else parents.get(id(par))
+                    test = m.get("scrut") if m is not None else None
+                if test is not None:
+                    nodes_ = list(walk(test))
+                    for y in list(nodes_):
+                        if y["k"] == "Path" and y.get("lid") in lets:
+                            nodes_ += list(walk(lets[y["lid"]]))
+                    if any(is_rec_call(y) for y in nodes_):
+                        return True
+                cur = par
+            return False
+        sites = []
+        for x in walk(tree["body"]):
+            if id(x) in base_nodes:
+                continue
+            if x["k"] == "Ret" and _const_of(x.get("e")) == base:
+                sites.append(x)
+        # a recursive call returned directly (`return f(rest)`) is of course fine and has no constant
+        ordinal = 0
+        for x in sites:
+            n += 1
+            ok = depends_on_recursion(x)
+            if collect:
+                if not ok:
+                    hits.append(g)
+                continue
+            key = "%s/direct-answer#%d" % (g.rsplit("::", 1)[-1], ordinal)
+            if not ok:
+                ordinal += 1
+            rep.ob(rid, key if not ok else "%s/answer-from-recursion@%d" % (g.rsplit("::", 1)[-1], n), ok,
+                   "%s answers `%s` - what it answers when no negative is left - next to the FIRST negative, without asking the remaining ones: a value that escapes this negative may lie in a later one, so `S <= T1 | T2` is decided differently from `S <= T2 | T1` (and wrongly for one of them)" % (g, base[1].rsplit("::", 1)[-1] if base[0] == "variant" else base[1]),
+                   "%s:%s" % (f.file, x["line"]), sample={"fn": g, "base_answer": base[1], "line": x["line"]})
+    return hits if collect else n
